@@ -426,6 +426,9 @@ func (svr *Server) Serve() error {
 	close(pktChan) // shuts down sftpServerWorkers
 	wg.Wait()      // wait for all workers to exit
 
+	// wait for the responses still queued in the packet manager to be sent
+	<-svr.pktMgr.done
+
 	// close any still-open files
 	for handle, file := range svr.openFiles {
 		fmt.Fprintf(svr.debugStream, "sftp server file with handle %q left open: %v\n", handle, file.Name())
